@@ -27,6 +27,9 @@ fn name(out: &mut Vec<String>, what: &str, t: &TopicName) {
     text(out, what, t);
     if TopicName::is_invalid(t) {
         out.push(format!("{} {:?} fails TopicName::is_invalid", what, &**t));
+    } else if !crate::oracle::spec_name(t) {
+        // (the rule written out independently of the crate: the crate's own validator may be the broken part)
+        out.push(format!("{} {:?} is not a valid topic name (wildcard or NUL inside, or too long)", what, &**t));
     }
 }
 fn filter(out: &mut Vec<String>, f: &TopicFilter) {
@@ -34,6 +37,10 @@ fn filter(out: &mut Vec<String>, f: &TopicFilter) {
     let (inv, sep) = TopicFilter::is_invalid(f);
     if inv {
         out.push(format!("topic filter {:?} fails TopicFilter::is_invalid", &**f));
+        return;
+    }
+    if crate::oracle::spec_filter(f).is_none() {
+        out.push(format!("topic filter {:?} is not a valid filter by the rule of MQTT 4.7 / 4.8.2 written out independently", &**f));
         return;
     }
     let s: &str = f;
